@@ -113,7 +113,7 @@ _NATIVE_CODE = (
     "        try:\n"
     "            r=ob.native(job['params'], m)\n"
     "        except Exception as e:\n"
-    "            import traceback; r={'ok':None,'detail':'native harness error: '+traceback.format_exc()[-1500:]}\n"
+    "            import traceback; r={'ok':None,'raised':type(e).__name__,'detail':'native run raised: '+traceback.format_exc()[-1500:]}\n"
     "        out.append(r)\n"
     "    res.append(out)\n"
     "print('@@RESULT@@'+json.dumps(res, default=str))\n"
@@ -302,6 +302,9 @@ def finish(prop, tier, seed, mod, obs, results, t0, args):
     for (obn, params, models, c), out in zip(cex_jobs, outs[len(wit_jobs):]):
         o = out[0]
         sig = f"{obn}:{c['label']}"
+        if str(c["label"]).startswith("unexpected:") and o.get("raised") and \
+                str(c["label"]).startswith("unexpected:" + o["raised"]):
+            o = dict(o, ok=False)  # the native code raises the same unanticipated exception: reproduced
         k = next((k for k in known if _matches(k, obn, c["label"], params)), None)
         if o.get("ok") is False:
             validated += 1
